@@ -181,16 +181,39 @@ Definition envsub_resets (sc : scall) : bool :=
   && (existsb (below_name nm) (default_files c)
       || match c_envcfg c with Some d => below_name nm d | None => false end).
 
+(* class 6 after the repair fx_envsub (residual, gone with fx_leaf): the result of the subcommand's parse_env is copied by
+   TOP-LEVEL entry, so a group `a` that holds one variable of the subcommand replaces the whole group NAME.a of the
+   environment namespace and drops what the environment config set for ANOTHER key of that group. *)
+Definition envsub_replaces_group (sc : scall) : bool :=
+  let c := s_parent sc in
+  let nm := s_name sc in
+  env_is_source c
+  && match s_envsub sc with Some v => name_eqb v nm | None => false end
+  && match c_envcfg c with
+     | None => false
+     | Some d =>
+         existsb (fun kv =>
+                    match fst kv with
+                    | a :: _ =>
+                        existsb (fun asg => match fst asg with
+                                            | n1 :: a1 :: _ => name_eqb n1 nm && name_eqb a1 a && negb (path_eqb (fst asg) (nm :: fst kv))
+                                            | _ => false
+                                            end) d
+                    | [] => false
+                    end) (s_subenv sc)
+     end.
+
 (* class 2: a call with a subcommand inside the modelled space and outside the finding classes: judged
    case by case against the documented fold (Spec flat_call); C04_sub_precedence_partial covers part of it *)
-Definition scall_class_fx (fixed_append fixed_section fixed_envsub : bool) (sc : scall) : N :=
+Definition scall_class_fx (fixed_append fixed_section fixed_envsub fixed_leaf : bool) (sc : scall) : N :=
   if negb (wf_scall sc) then 9%N
   else if envcfg_append (flat_call sc) then 1%N
   else if negb fixed_section && file_without_section sc then 4%N
   else if negb fixed_envsub && envsub_resets sc then 6%N
+  else if fixed_envsub && negb fixed_leaf && envsub_replaces_group sc then 6%N
   else if section_append sc then 5%N      (* stays a finding with the partial repair fx_append, see notes/C04.md *)
   (* with the repair fx_envsub a subcommand named by PREFIX_SUBCOMMAND has its variables read in the parent's environment stage *)
   else if subenv_shadowed sc && negb (fixed_envsub && envsub_resets sc) then 3%N
   else 2%N.
 
-Definition scall_class : scall -> N := scall_class_fx false false false.
+Definition scall_class : scall -> N := scall_class_fx false false false false.
